@@ -121,3 +121,41 @@ Proof.
   intros H c I. pose proof (proj1 (forallb_forall _ _) H c I) as G. unfold case_feat_good in G.
   split; intros E; rewrite E in G; [apply case_feat_ok_sound; exact G | apply negb_true_iff; exact G].
 Qed.
+
+(* ------------------------------------------------------------------ rm_feature *)
+Lemma op_rmfeat_ok_sound avail e o : op_rmfeat_ok avail e o = true -> has_flag (o_flags o) fRegM ->
+  exists sf, In sf (e_memforms e) /\ fst sf = o_rmsize o /\ forall x, In x (snd sf) -> In x avail.
+Proof.
+  unfold op_rmfeat_ok. intros H F. apply test_spec in F. rewrite F in H. simpl in H.
+  apply existsb_exists in H as [sf [I E]]. apply andb_true_iff in E as [E1 E2]. apply N.eqb_eq in E1.
+  exists sf. split; [exact I|]. split; [exact E1|]. intros x Hx. apply has_In. exact (proj1 (forallb_forall _ _) E2 x Hx).
+Qed.
+
+Lemma rmfeat_ok_list T C l : forallb (case_rmfeat_ok T C) l = true ->
+  forall c, In c l -> c_rmcheck c = true ->
+  exists out feats, query_rw_info T (c_q c) = Some out /\ query_features T C (c_q c) = Some feats /\ rm_feature_claims_true C c out feats.
+Proof.
+  intros H c I R. pose proof (proj1 (forallb_forall _ _) H c I) as G. unfold case_rmfeat_ok in G.
+  destruct (query_rw_info T (c_q c)) as [out|]; [|discriminate].
+  destruct (query_features T C (c_q c)) as [feats|]; [|discriminate].
+  rewrite R in G. simpl in G. exists out, feats. split; [reflexivity|]. split; [reflexivity|].
+  unfold rm_feature_claims_true. eapply all2_Forall2; [|exact G]. intros e o; apply op_rmfeat_ok_sound.
+Qed.
+
+(* ------------------------------------------------------------------ the fused checker implies the four individual ones *)
+Lemma case_fused_split T C c : case_fused T C c = true ->
+  case_covered T c = true /\ case_rm_ok T c = true /\ case_feat_good T C c = true /\ case_rmfeat_ok T C c = true.
+Proof.
+  unfold case_fused, case_covered, case_rm_ok, case_feat_good, case_feat_ok, feat_case_ok, case_rmfeat_ok.
+  destruct (query_rw_info T (c_q c)) as [out|]; [|discriminate].
+  destruct (query_features T C (c_q c)) as [feats|]; [|discriminate].
+  intros H. do 3 (apply andb_true_iff in H; destruct H as [H ?]). cbv beta iota. repeat split; assumption.
+Qed.
+
+Lemma fused_list T C l : forallb (case_fused T C) l = true ->
+  forallb (case_covered T) l = true /\ forallb (case_rm_ok T) l = true /\ forallb (case_feat_good T C) l = true /\
+  forallb (case_rmfeat_ok T C) l = true.
+Proof.
+  intros H. repeat split; apply forallb_forall; intros c I;
+    destruct (case_fused_split T C c (proj1 (forallb_forall _ _) H c I)) as [A [B [D E]]]; assumption.
+Qed.
